@@ -189,6 +189,9 @@ func scenario(param string) vsched.Scenario {
 			}
 			var server netio.StreamServer
 			cEnd, rEnd = vnet.Pair("client", "relay<client", 1<<16)
+			if sp.payload == "eofDataSameRead" {
+				rEnd.EOFWithData = true // the last bytes arrive together with end-of-stream in one Read
+			}
 			inner := innerClient{cEnd}
 			var front netio.StreamClient
 			switch sp.server {
@@ -277,7 +280,7 @@ func scenario(param string) vsched.Scenario {
 			g.Go(func() {
 				var first []byte
 				switch sp.payload {
-				case "early", "eofData":
+				case "early", "eofData", "eofDataSameRead":
 					first = []byte("C0-initial")
 				}
 				if sp.payload == "late" {
@@ -333,8 +336,8 @@ func scenario(param string) vsched.Scenario {
 					c.Close()
 					return
 				}
-				if sp.order == "clientFirst" || sp.payload == "eofData" || sp.payload == "eofNoData" {
-					if sp.payload != "eofData" && sp.payload != "eofNoData" {
+				if sp.order == "clientFirst" || strings.HasPrefix(sp.payload, "eof") {
+					if !strings.HasPrefix(sp.payload, "eof") {
 						write("C1-more")
 					}
 					c.CloseWrite()
@@ -447,7 +450,7 @@ func scenario(param string) vsched.Scenario {
 			if sp.order == "clientFirst" && !targetEOFBeforeReply {
 				return obs, "target did not see the client's end-of-stream while the reverse direction was still open"
 			}
-			if sp.order == "targetFirst" && sp.payload != "eofData" && sp.payload != "eofNoData" && !clientEOFBeforeReply {
+			if sp.order == "targetFirst" && !strings.HasPrefix(sp.payload, "eof") && !clientEOFBeforeReply {
 				return obs, "client did not see the target's end-of-stream while the reverse direction was still open"
 			}
 			wantStats := fmt.Sprintf("/%d/%d", len(targetSent), len(clientSent))
@@ -477,9 +480,9 @@ func family(c *harness.Check) []string {
 					// and the SS2022 server has native initial payload: the service never waits in front of it.
 					continue
 				}
-				for _, pay := range []string{"none", "early", "late", "eofData", "eofNoData"} {
+				for _, pay := range []string{"none", "early", "late", "eofData", "eofDataSameRead", "eofNoData"} {
 					for _, order := range []string{"clientFirst", "targetFirst"} {
-						if (pay == "eofData" || pay == "eofNoData") && order == "targetFirst" {
+						if strings.HasPrefix(pay, "eof") && order == "targetFirst" {
 							continue
 						}
 						if pay == "none" && order == "clientFirst" && !c.Thorough() && sv != "tunnel" {
